@@ -395,7 +395,7 @@ theorem leaves_only_by_finish {s s' : State} {a : Action} {r : Nat} {q q' : Req}
   | cancel c =>
     simp only [step, stepCancel] at hs
     split at hs <;> simp at hs
-    subst hs; exact (same rfl).elim
+    obtain ⟨_, hs⟩ := hs; subst hs; exact (same rfl).elim
   | delete c k =>
     simp only [step, stepDelete_spec] at hs
     split at hs
@@ -420,7 +420,19 @@ theorem leaves_only_by_finish {s s' : State} {a : Action} {r : Nat} {q q' : Req}
     next q2 hq2 =>
       split at hs
       next hpc =>
-        simp at hs; subst hs
+        simp at hs; obtain ⟨_, hs⟩ := hs; subst hs
+        rcases set_case hq hq' with ⟨_, rfl⟩ | ⟨rfl, rfl⟩
+        · simp [hin] at hout
+        · rw [hq] at hq2; simp at hq2; subst hq2; simp [hpc, Pc.inFlightOn] at hin
+      all_goals simp at hs
+    next => simp at hs
+  | newIter r2 =>
+    simp only [step, stepNewIter] at hs
+    split at hs
+    next q2 hq2 =>
+      split at hs
+      next hpc =>
+        simp at hs; obtain ⟨_, hs⟩ := hs; subst hs
         rcases set_case hq hq' with ⟨_, rfl⟩ | ⟨rfl, rfl⟩
         · simp [hin] at hout
         · rw [hq] at hq2; simp at hq2; subst hq2; simp [hpc, Pc.inFlightOn] at hin
